@@ -95,12 +95,14 @@ class SystemM(PyStub):
     def atoms_prop(self, *a, **k):
         return list(self.atoms.view.keys())
 
-    def dvect(self, p0, p1):
+    def dvect(self, pos_0, pos_1):      # the parameter names of System.dvect
+        p0, p1 = pos_0, pos_1
         # a table of separations, one row per atom (symbols: the distances are scripted where the table's norm is taken)
         self.dv_calls.append((p0, p1))
         return symarray('dv%d_' % len(self.dv_calls), (len(np.atleast_2d(np.asarray(p1, dtype=object))), 3), real=True)
 
-    def dmag(self, p0, p1):
+    def dmag(self, pos_0, pos_1):
+        p0, p1 = pos_0, pos_1
         # the same search through the distance function: the scripted distances directly
         self.dv_calls.append((p0, p1))
         if getattr(self, 'scripted', None) is None:
@@ -183,11 +185,13 @@ def site_tolerance(ctx):
             view = {'atype': arr([1, 2, 1, 2]), 'pos': np.array([[x_ * U, R(1, 2) * U, R(1, 3) * U] for x_ in X], dtype=object), 'charge': arr([R(1), R(2), R(3), R(4)])}
 
             class SysC(SystemM):
-                def dvect(self, p0, p1):
+                def dvect(self, pos_0, pos_1):      # the parameter names of System.dvect
+                    p0, p1 = pos_0, pos_1
                     self.dv_calls.append((p0, p1))
                     return np.atleast_2d(np.asarray(p1, dtype=object)) - np.asarray(p0, dtype=object)
 
-                def dmag(self, p0, p1):
+                def dmag(self, pos_0, pos_1):
+                    p0, p1 = pos_0, pos_1
                     return np.array([sp.sqrt(sum(c_ ** 2 for c_ in row)) for row in self.dvect(p0, p1)], dtype=object)
             system = SysC(box=BoxM(), pbc=np.array([False, False, False], dtype=object), atoms=AtomsM(view), symbols=('Al', 'Cu'))
             pos = np.array([X[2] * U + delta, R(1, 2) * U, R(1, 3) * U], dtype=object)
@@ -237,12 +241,14 @@ def site_tolerance(ctx):
         view = {'atype': arr([1]), 'pos': np.array([[R(4), R(1, 2), R(1, 3)]], dtype=object), 'charge': arr([R(3)])}
 
         class Sys1(SystemM):
-            def dvect(self, p0, p1):
+            def dvect(self, pos_0, pos_1):      # the parameter names of System.dvect
+                p0, p1 = pos_0, pos_1
                 self.dv_calls.append((p0, p1))
                 d_ = np.atleast_2d(np.asarray(p1, dtype=object)) - np.asarray(p0, dtype=object)
                 return d_[0] if d_.shape[0] == 1 else d_
 
-            def dmag(self, p0, p1):
+            def dmag(self, pos_0, pos_1):
+                p0, p1 = pos_0, pos_1
                 d_ = np.atleast_2d(self.dvect(p0, p1))
                 m_ = np.array([sp.sqrt(sum(c_ ** 2 for c_ in row)) for row in d_], dtype=object)
                 return m_[0] if len(m_) == 1 else m_
